@@ -24,7 +24,8 @@ ASSUMPTIONS = [
 ]
 
 REPORTERS = ["TestResult", "TextTestResult", "TestByTestResult", "MultiTestResult", "ThreadsafeForwardingResult",
-             "Tagger", "TestResultDecorator", "ETOD-ext", "ETOD-py27", "ETSD-S2E", "ETOD-TestResult", "Tagger-TSFR"]
+             "Tagger", "TestResultDecorator", "ETOD-ext", "ETOD-py27", "ETSD-S2E", "ETOD-TestResult", "Tagger-TSFR",
+             "doubles-Extended", "ETOD-py26", "ETOD-twisted", "ETOD-doubles"]
 
 HIST = H.s_history(max_tests=4, with_time=False, with_startless=True, with_placeholder=True, max_ops=24)
 
@@ -71,7 +72,9 @@ def build(name, spec):
     elif name == "TextTestResult":
         r = testtools.TextTestResult(io.StringIO())
     elif name == "TestByTestResult":
-        r = real.TestByTestResult(lambda **kw: None)
+        handed = []
+        r = real.TestByTestResult(lambda **kw: handed.append(frozenset(kw["tags"])))
+        obs.append(("@stop:TestByTestResult-callback", lambda: handed))       # the tags current when the test stopped
     elif name == "MultiTestResult":
         e, p = Ext(), Probe()
         r = testtools.MultiTestResult(e, p)
@@ -105,6 +108,15 @@ def build(name, spec):
         obs.append(("etod->TestResult", lambda: p.seen))
     elif name == "ETOD-py27":
         r = testtools.ExtendedToOriginalDecorator(Py27())
+    elif name in ("ETOD-py26", "ETOD-twisted"):
+        # targets without startTestRun / tags: the decorator keeps the tags itself
+        from vp.results import Py26, Twisted
+        r = testtools.ExtendedToOriginalDecorator((Py26 if name == "ETOD-py26" else Twisted)())
+    elif name in ("doubles-Extended", "ETOD-doubles"):
+        from testtools.testresult import doubles
+        r = doubles.ExtendedTestResult()
+        if name == "ETOD-doubles":
+            r = testtools.ExtendedToOriginalDecorator(r)
     elif name == "ETSD-S2E":
         e = Ext()
         rec = streams.Recorder()
@@ -130,6 +142,7 @@ def run_case(spec):
     model = H.TagModel()
     scratch = (set(), set())
     expected_at_outcome = []
+    expected_at_stop = []
     tests = {}
     cur = None
     local_then_later = second_run = startless = False
@@ -183,6 +196,7 @@ def run_case(spec):
                 expected_at_outcome.append(frozenset(model.current))
                 H.outcome_call(r, cur, op)
             elif k == "stopTest":
+                expected_at_stop.append(frozenset(model.current))
                 r.stopTest(cur)
                 model.stop_test()
             elif k == "startless_skip":
@@ -195,6 +209,7 @@ def run_case(spec):
                     # there is no test-local scope (startTest never happened): this is a run-level change
                     r.tags(set(tb["new"]), set(tb["gone"]))
                     model.change(tb["new"], tb["gone"])
+                expected_at_stop.append(frozenset(model.current))
                 r.stopTest(t)
                 startless = True
             elif k == "placeholder":
@@ -204,6 +219,7 @@ def run_case(spec):
                 model.start_test()
                 model.change(*extra)
                 expected_at_outcome.append(frozenset(model.current))
+                expected_at_stop.append(frozenset(model.current))
                 model.stop_test()
                 model.change((), op["tags"])
                 ph.run(r)
@@ -221,6 +237,13 @@ def run_case(spec):
     if ok:
         for label, fn in obs:
             got = list(fn())
+            if label.startswith("@stop:"):
+                # one callback per finished test, with the tags that were current when it stopped
+                want_stop = expected_at_stop[:len(got)] if len(got) <= len(expected_at_stop) else expected_at_stop
+                if got != want_stop or len(got) > len(expected_at_stop):
+                    vs.append(V("observed", label[6:], "per-test callbacks saw tags %r, the reporter had %r when those tests stopped" % (
+                        [sorted(g) for g in got], [sorted(w) for w in expected_at_stop])))
+                continue
             if len(got) != len(expected_at_outcome):
                 vs.append(V("observed", label + "-count", "%d outcomes observed, %d reported" % (len(got), len(expected_at_outcome))))
                 continue
